@@ -44,6 +44,9 @@ func (c *FnCtx) instr(in ssa.Instruction) {
 		if kindOf(x.X.Type()) == kBig {
 			// convention of the value model: a *big.Int carried by an interface is never nil
 			c.safety("box-nil-big", not(eq(c.term(x.X), "0")), x.Pos(), "nil *big.Int converted to an interface value")
+			// publication: from here on the integer is immutable (value model of gojq; writes to
+			// pre-existing big integers are excluded by the BIG frame obligations)
+			c.assumeAt(c.guard(), eq(app("pubval", c.term(x.X)), sel(c.bigHeap(), c.term(x.X))))
 		}
 		c.setVal(x, c.box(x.X.Type(), c.term(x.X)))
 	case *ssa.TypeAssert:
@@ -631,12 +634,18 @@ func (c *FnCtx) instrTypeAssert(x *ssa.TypeAssert) {
 		c.declare(vn, c.sorts.sortOf(x.AssertedType))
 		c.assume(eq(vn, val))
 		c.assumeAt(ok, c.validity(vn, x.AssertedType, 0))
+		if kindOf(x.AssertedType) == kBig {
+			c.assumeAt(and(c.guard(), ok), eq(sel(c.bigHeap(), vn), app("pubval", vn)))
+		}
 		c.tuples[x] = []string{vn, ok}
 		return
 	}
 	c.safety("type-assert", is, x.Pos(), fmt.Sprintf("interface conversion to %s", x.AssertedType))
 	c.setVal(x, c.unbox(x.AssertedType, v))
 	c.assumeValid(c.vals[x], x.AssertedType)
+	if kindOf(x.AssertedType) == kBig {
+		c.assumeAt(c.guard(), eq(sel(c.bigHeap(), c.vals[x]), app("pubval", c.vals[x])))
+	}
 }
 
 func (c *FnCtx) instrConvert(x *ssa.Convert) {
@@ -708,7 +717,6 @@ func (c *FnCtx) instrConvert(x *ssa.Convert) {
 			c.assume(forall([][2]string{{k, "Int"}}, implies(and(le("0", k), lt(k, ln)), eq(sel2(h2, app("s-arr", c.vals[x]), k), app("sat", a, k))), sel2(h2, app("s-arr", c.vals[x]), k)))
 		} else {
 			// []rune(s)
-			c.declareFun("rcount", []string{"Str"}, "Int")
 			ln := c.fresh("rlen")
 			c.declare(ln, "Int")
 			c.assume(and(eq(ln, app("rcount", a)), le("0", ln), le(ln, app("slen", a))))
@@ -722,7 +730,7 @@ func (c *FnCtx) instrConvert(x *ssa.Convert) {
 			c.frameExcept(hn, app("s-arr", c.vals[x]))
 			h2 := c.cur[hn]
 			k := c.fresh("k")
-			c.assume(forall([][2]string{{k, "Int"}}, and(le("0", sel2(h2, app("s-arr", c.vals[x]), k)), le(sel2(h2, app("s-arr", c.vals[x]), k), "1114111")), sel2(h2, app("s-arr", c.vals[x]), k)))
+			c.assume(forall([][2]string{{k, "Int"}}, implies(and(le("0", k), lt(k, ln)), eq(sel2(h2, app("s-arr", c.vals[x]), k), app("rdecode", a, app("ridx", a, k)))), sel2(h2, app("s-arr", c.vals[x]), k)))
 		}
 	default:
 		if _, ok := types.Unalias(to).Underlying().(*types.Pointer); ok {
@@ -759,8 +767,18 @@ func (c *FnCtx) instrRange(x *ssa.Range) {
 		c.heapDecl(it.posVar, "Int")
 		c.heapGet(it.posVar, "Int")
 		c.heapSet(it.posVar, "Int", "0")
+		it.cntVar = "IT_" + sanitize(x.Name()) + "_cnt"
+		c.heapDecl(it.cntVar, "Int")
+		c.heapGet(it.cntVar, "Int")
+		c.heapSet(it.cntVar, "Int", "0")
 	case *types.Map:
 		it.isMap = true
+		// hidden count of keys produced so far
+		it.posVar = "IT_" + sanitize(x.Name()) + "_cnt"
+		c.heapDecl(it.posVar, "Int")
+		c.heapGet(it.posVar, "Int")
+		c.heapSet(it.posVar, "Int", "0")
+		it.stable = !c.mapWrittenInLoopOf(x)
 	default:
 		unsupp("range over %s", x.X.Type())
 	}
@@ -774,12 +792,16 @@ func (c *FnCtx) instrNext(x *ssa.Next) {
 	}
 	if it.isString {
 		pos := c.heapGet(it.posVar, "Int")
+		cnt := c.heapGet(it.cntVar, "Int")
 		s := it.x
 		ok := c.fresh("ok")
 		c.declare(ok, "Bool")
 		c.assume(eq(ok, lt(pos, app("slen", s))))
+		// semantic model of range-over-string: the hidden position is the cnt-th decode boundary
+		c.assume(and(le("0", cnt), le(cnt, app("rcount", s)), eq(pos, app("ridx", s, cnt)), eq(ok, lt(cnt, app("rcount", s)))))
 		w := app("rwidth", s, pos)
 		c.heapSet(it.posVar, "Int", ite(ok, add(pos, w), pos))
+		c.heapSet(it.cntVar, "Int", ite(ok, add(cnt, "1"), cnt))
 		r := c.fresh("rune")
 		c.declare(r, "Int")
 		c.assume(eq(r, app("rdecode", s, pos)))
@@ -800,6 +822,16 @@ func (c *FnCtx) instrNext(x *ssa.Next) {
 	k := c.fresh("key")
 	c.declare(k, c.sorts.sortOf(tt.Key()))
 	c.assume(implies(ok, and(not(eq(it.x, "0")), sel2(d, it.x, k))))
+	if it.stable {
+		// a map that is not written while it is ranged over yields exactly len(m) keys
+		_, _, lnH := c.mapHeaps(tt)
+		l := c.heapGet(lnH, c.heapSort[lnH])
+		n := ite(eq(it.x, "0"), "0", sel(l, it.x))
+		cnt := c.heapGet(it.posVar, "Int")
+		c.assume(and(le("0", cnt), le(cnt, n)))
+		c.assume(eq(ok, lt(cnt, n)))
+		c.heapSet(it.posVar, "Int", ite(ok, add(cnt, "1"), cnt))
+	}
 	vv := c.fresh("mval")
 	c.declare(vv, c.sorts.sortOf(tt.Elem()))
 	c.assume(eq(vv, sel2(v, it.x, k)))
@@ -851,4 +883,26 @@ func (c *FnCtx) instrRunDefers(x *ssa.RunDefers) {
 		d := c.defers[i]
 		c.callCommon(&d.Call, nil, d.Pos())
 	}
+}
+
+// mapWrittenInLoopOf: does any loop containing a Next of this range write maps of its type?
+func (c *FnCtx) mapWrittenInLoopOf(r *ssa.Range) bool {
+	tt := types.Unalias(r.X.Type()).Underlying().(*types.Map)
+	dom := heapMapDom(tt)
+	refs := r.Referrers()
+	if refs == nil {
+		return true
+	}
+	for _, ref := range *refs {
+		nx, ok := ref.(*ssa.Next)
+		if !ok {
+			continue
+		}
+		for _, li := range c.loopList {
+			if li.blocks[nx.Block()] && (li.writes[dom] || li.writes["*"]) {
+				return true
+			}
+		}
+	}
+	return false
 }
